@@ -67,7 +67,7 @@ def main():
         rc, o = sh("/venv/bin/python %s" % demo, cwd=wt, timeout=600)
         out["demo_patched_rc"] = rc
         out["demo_patched_tail"] = o[-300:]
-        env = dict(os.environ, VERIF_REPO=wt)
+        env = dict(os.environ, VERIF_REPO=wt, VERIF_OUT=wt + "-out")
         out["checks"] = {}
         for c in checks:
             t = time.time()
@@ -77,8 +77,8 @@ def main():
                                 "n_signatures": len(sigs)}
     finally:
         sh("git -C /repo worktree remove --force %s" % wt)
-        # evidence written while VERIF_REPO is set is not evidence: restore the committed files
-        sh("git -C /verif checkout -- evidence")
+        sh("rm -rf %s-out" % wt)
+        # runs with VERIF_REPO write their evidence/replays under VERIF_OUT (a scratch directory), never under /verif
     print(json.dumps(out, indent=1))
 
 
